@@ -18,6 +18,7 @@ from __future__ import annotations
 import json
 import os
 import random
+import re
 import subprocess
 import sys
 from concurrent.futures import ThreadPoolExecutor
@@ -121,6 +122,32 @@ def coq_result(cols, rows):
     return f"(Some ({listlit([strlit(c) for c in cols])}, {coq_rows(rows)}))"
 
 
+_WORD = re.compile(r"[A-Za-z_][A-Za-z_0-9]*|\d+|'[^']*'|\S")
+
+
+def invalid_shape(stmt: dict) -> str:
+    """shape predicate of a statement that does not parse / is not a fixed point (used as the finding signature)"""
+    if not stmt.get("parse"):
+        err = stmt.get("error") or ""
+        sql = stmt.get("sql") or ""
+        if "RegexpLike" in err and re.search(r"[ (,]~ ?[\"(`]", sql):
+            return "does-not-parse:prefix-tilde-read-as-regex-match"
+        m = re.match(r"parse:(\w+)", err)
+        return "does-not-parse:" + (m.group(1) if m else "unknown")
+    a, b = stmt.get("sql") or "", stmt.get("rerendered") or ""
+    unq = lambda t: re.sub(r"INTERVAL '(\d+)'", r"INTERVAL \1", t)
+    if unq(a) == unq(b):
+        return "not-fixed-point:interval-literal-quoting"
+    up = lambda t: re.sub(r"EXTRACT\((\w+) FROM", lambda m: "EXTRACT(" + m.group(1).upper() + " FROM", t)
+    if up(unq(a)) == up(unq(b)):
+        return "not-fixed-point:extract-unit-letter-case"
+    ta, tb = _WORD.findall(a), _WORD.findall(b)
+    for x, y in zip(ta, tb):
+        if x != y:
+            return f"not-fixed-point:{x[:14]}>{y[:14]}"
+    return "not-fixed-point:length"
+
+
 def alias_case_shape(engine, steps):
     """shape predicate of the display-name defect: an ORDER BY written into the block whose select list has just been
     re-aliased with display names, on a dialect that resolves quoted identifiers case-sensitively"""
@@ -140,10 +167,10 @@ def classify_core(engine, steps, ent, verdict):
         return None, None, None          # the DuckDB session itself failed: C01's business, nothing to compare with
     err = ent.get("exc") or ""
     stmts = ent.get("statements") or []
-    if any(not s["parse"] for s in stmts):
-        return "deviation", signature(engine, ent, "statement-does-not-parse"), "a statement sent to the cursor does not parse in the execution dialect"
-    if any(not s["fixed_point"] for s in stmts):
-        return "deviation", signature(engine, ent, "statement-not-a-fixed-point"), "re-rendering the parse of a statement changes it"
+    bad = [s for s in stmts if not s["parse"] or not s["fixed_point"]]
+    if bad:
+        return "deviation", f"C12/{engine}/core:{invalid_shape(bad[0])}", \
+            "a relational-core statement does not parse in the execution dialect / re-rendering its parse changes it"
     if eraised:
         if "BinderException" in err and "not found in FROM clause" in err and order_by_after_projection(steps) \
                 and engine == "snowflake":
@@ -213,7 +240,7 @@ def run(ctx: core.Ctx):
     engines = pick_engines(ctx)
     progs, n_exh = c01.make_programs(ctx)
     corpus, exh, rand = progs[:5], progs[5:5 + n_exh], progs[5 + n_exh:]
-    n_e, n_r = (28, 44) if ctx.tier == "quick" else (160, 420)
+    n_e, n_r = (28, 44) if ctx.tier == "quick" else (100, 200)
     chosen = corpus + rnd.sample(exh, min(n_e, len(exh))) + rnd.sample(rand, min(n_r, len(rand)))
     programs, tables_for, sql_dialects, plans = [], {}, {}, {}
     tnames = list(c01.TABLES)
@@ -283,7 +310,7 @@ def run(ctx: core.Ctx):
                     {"parse": sr["parse"], "fixed_point": sr["fixed_point"], "sql": sr.get("text"), "rerendered": sr.get("rerendered")}]),
                               "steps": steps, "mode": mode, "table": c["table"]})
                 hist_engine["df.sql:" + x] = hist_engine.get("df.sql:" + x, 0) + 1
-    res = ctx.cases("c12", HEADER, items, per_file=120, result_ty="str", fn="check") if facts_compiled and items else []
+    res = ctx.cases("c12", HEADER, items, per_file=60 if ctx.tier == "quick" else 150, result_ty="str", fn="check") if facts_compiled and items else []
     n_t2 = n_nontriv = n_agree = 0
     t2_fail, model_fail, reader_notes = [], [], []
     for it, m, r in zip(items, metas, res):
@@ -327,7 +354,7 @@ def run(ctx: core.Ctx):
     probe_res = compare_probes(ctx, results, duck)
     fn_res = compare_functions(ctx, results, duck)
     # ---- T3d: actions
-    act_res = check_actions(ctx, results)
+    act_res = check_actions(ctx, results, plans)
 
     ctx.coverage.update({
         "evaluations": len(items) + fn_res["compared"] + probe_res["compared"] + act_res["actions"],
@@ -453,7 +480,7 @@ def compare_functions(ctx, results, duck):
             pe["functions"] += 1
             bad_stmt = [s for s in f["statements"] if not s["parse"] or not s["fixed_point"]]
             if bad_stmt and not (f["exc"] or "").startswith("build:"):
-                ctx.deviation(f"C12/{e}/function-statement-invalid:{f['fn']}", f"[{e}] F.{f['fn']}: statement does not parse / is not a fixed point in {e}",
+                ctx.deviation(f"C12/{e}/{invalid_shape(bad_stmt[0])}", f"[{e}] F.{f['fn']}: statement does not parse / is not a fixed point in {e}",
                               {"engine": e, "function": f["fn"], "statement": bad_stmt[0].get("sql"), "rerendered": bad_stmt[0].get("rerendered"),
                                "error": bad_stmt[0].get("error")})
                 continue
@@ -481,7 +508,7 @@ def compare_functions(ctx, results, duck):
     return out
 
 
-def check_actions(ctx, results):
+def check_actions(ctx, results, plans):
     out = {"actions": 0, "count_equals_model": 0, "statements": 0}
     for e, r in results.items():
         mc = r.get("model_counts", {})
@@ -490,11 +517,20 @@ def check_actions(ctx, results):
             out["statements"] += len(a["statements"])
             desc = {"engine": e, "action": a["action"], "exception": a["exc"],
                     "statements": [{k: s.get(k) for k in ("sql", "parse", "fixed_point", "error", "rerendered")} for s in a["statements"]]}
-            if any(not s["parse"] or not s["fixed_point"] for s in a["statements"]):
-                ctx.deviation(f"C12/{e}/action-statement-invalid:{a['action']}", f"[{e}] {a['action']}(): statement does not parse / is not a fixed point", desc)
+            steps = plans[a["pid"]][2]
+            desc["program"] = [c01.step_str(x) for x in steps]
+            desc["steps_json"] = steps
+            desc["table"] = "t1"
+            bad = [s for s in a["statements"] if not s["parse"] or not s["fixed_point"]]
+            if bad:
+                ctx.deviation(f"C12/{e}/action:{invalid_shape(bad[0])}", f"[{e}] {a['action']}(): statement does not parse / is not a fixed point", desc)
                 continue
             if a["exc"] and not a["exc"].startswith("NotImplementedError"):
-                ctx.deviation(f"C12/{e}/action-raises:{a['action']}", f"[{e}] {a['action']}() raises {a['exc'][:80]}", desc)
+                if e == "snowflake" and "not found in FROM clause" in a["exc"] and order_by_after_projection(steps):
+                    ctx.deviation("C12/snowflake/order-by-key-vs-display-alias-case",
+                                  f"[snowflake] {a['action']}(): ORDER BY names the upper-cased identifier, the select list the lower-case display alias", desc)
+                else:
+                    ctx.deviation(f"C12/{e}/action-raises:{a['action']}", f"[{e}] {a['action']}() raises {a['exc'][:80]}", desc)
                 continue
             exp = mc.get(a["action"])
             if a["action"] in mc and exp is not None and not a["exc"]:
